@@ -67,7 +67,10 @@ def main():
         if kind == "mkr":
             entity_reader(cls, op[2]); return ["ok"]
         if kind == "w":
-            inst = to_py(cls, from_json(op[2]))
+            try:
+                inst = to_py(cls, from_json(op[2]))
+            except Exception as e:  # noqa  an ill-typed value may already be refused when the instance is built
+                return ["err", cc.err_name(e), ""]
             sink = FaultySink(op[3] if len(op) > 3 and op[3] is not None else -1)
             try:
                 entity_writer(cls)(sink, inst)
@@ -94,10 +97,22 @@ def main():
         n = spec["threads"]
         results = [None] * n
         barrier = threading.Barrier(n)
+        # import the schema modules up front, in this thread: concurrent FIRST imports of sibling modules are
+        # CPython's import machinery (it may raise _DeadlockError), not the readers and writers under test
+        for ops in spec["per_thread"]:
+            for op in ops:
+                classes[op[1]]
 
         def run(i):
             barrier.wait()
-            results[i] = [do(op) for op in spec["per_thread"][i]]
+            out = []
+            for op in spec["per_thread"][i]:
+                try:
+                    out.append(do(op))
+                except BaseException as e:  # noqa  - reported as this operation's outcome, never lost
+                    import traceback
+                    out.append(["crash", f"{type(e).__name__}: {e}", traceback.format_exc()[-1500:]])
+            results[i] = out
 
         ts = [threading.Thread(target=run, args=(i,)) for i in range(n)]
         for t in ts:
